@@ -207,12 +207,14 @@ def replay(files, violation, known=(), timeout=300, patches=(), scaled_files=Non
     return ok, line
 
 
-def probe_prefixes(prog, entry, opts, depth, intr_factory=None):
+def probe_prefixes(prog, entry, opts, depth, intr_factory=None, deadline_s=None):
     """enumerate the distinct verifChoice prefixes of length `depth` (paths that make fewer choices are
     returned with their full, shorter choice list). Used to split one harness over worker processes."""
     o = dict(opts)
     o["probe_depth"] = depth
     o["stop_after_violations"] = 10 ** 9      # the probe must enumerate every prefix: never stop early
+    if deadline_s:
+        o["deadline_s"] = deadline_s
     intr = (intr_factory or Intrinsics)()
     eng = Engine(prog, intr, o)
     eng.keep_final = True
